@@ -24,19 +24,20 @@ theorem i32ToUsize_lt (x : Int) : i32ToUsize x < U64 := by
 theorem Inv.take_backward {data : ByteArray} {m cm curIx maxLength maxBackward backward len : Nat}
     {s : LoopSt} (hI : Inv data m cm curIx maxLength maxBackward s)
     (hc : curIx < U64) (hb : backward < U64) (hlt : wsub curIx backward < curIx)
-    (hmb : backward ≤ maxBackward) (hlen : len ≤ maxLength)
+    (hmb : backward ≤ maxBackward) (hlen : len ≤ maxLength) (hl2 : 4 ≤ maxLength → 2 ≤ len)
     (hag : Agree data (wsub curIx backward &&& m) cm len) (score : Nat) :
     Inv data m cm curIx maxLength maxBackward (s.take len backward score) :=
-  ⟨hI.1, fun _ => ⟨wsub_pos_of_lt hc hlt, hmb, hlen, hI.1, wsub curIx backward,
+  ⟨hI.1, fun _ => ⟨wsub_pos_of_lt hc hlt, hmb, hlen, hI.1, hl2, wsub curIx backward,
     (wsub_wsub hc hb).symm, hag⟩⟩
 
 /-- taking a candidate from a table entry `prev` keeps the invariant -/
 theorem Inv.take_prev {data : ByteArray} {m cm curIx maxLength maxBackward prev len : Nat}
     {s : LoopSt} (hI : Inv data m cm curIx maxLength maxBackward s)
     (h0 : wsub curIx prev ≠ 0) (hmb : ¬ wsub curIx prev > maxBackward) (hlen : len ≤ maxLength)
+    (hl2 : 4 ≤ maxLength → 2 ≤ len)
     (hag : Agree data (prev &&& m) cm len) (score : Nat) :
     Inv data m cm curIx maxLength maxBackward (s.take len (wsub curIx prev) score) :=
-  ⟨hI.1, fun _ => ⟨Nat.pos_of_ne_zero h0, Nat.le_of_not_gt hmb, hlen, hI.1, prev, rfl, hag⟩⟩
+  ⟨hI.1, fun _ => ⟨Nat.pos_of_ne_zero h0, Nat.le_of_not_gt hmb, hlen, hI.1, hl2, prev, rfl, hag⟩⟩
 
 theorem tryAt_inv {g : Option Bool} {fml : Unit → Option Nat} {acc : Nat → LoopSt} {s s' : LoopSt}
     (h : tryAt g fml acc s = some s') : s' = s ∨ ∃ len, fml () = some len ∧ s' = acc len := by
@@ -55,7 +56,8 @@ theorem tryAt_inv {g : Option Bool} {fml : Unit → Option Nat} {acc : Nat → L
 theorem Adv.cacheAccept_inv {lbs i len backward : Nat} {data : ByteArray}
     {m cm curIx maxLength maxBackward : Nat} {s : LoopSt}
     (hI : Inv data m cm curIx maxLength maxBackward s)
-    (hco : ∀ score, Inv data m cm curIx maxLength maxBackward (s.take len backward score)) :
+    (hco : ∀ score, (len ≥ 3 ∨ (len = 2 ∧ i < 2)) →
+      Inv data m cm curIx maxLength maxBackward (s.take len backward score)) :
     Inv data m cm curIx maxLength maxBackward (Adv.cacheAccept lbs i len backward s) := by
   unfold Adv.cacheAccept
   by_cases h1 : len ≥ 3 ∨ (len = 2 ∧ i < 2)
@@ -64,7 +66,7 @@ theorem Adv.cacheAccept_inv {lbs i len backward : Nat} {data : ByteArray}
     · simp only [h2, if_true]
       generalize (if i ≠ 0 then wsub (scoreLast lbs len) (penaltyLast i) else scoreLast lbs len) = sc
       by_cases h3 : s.bestScore < sc
-      · simp only [h3, if_true]; exact hco _
+      · simp only [h3, if_true]; exact hco _ h1
       · simp only [h3, if_false]; exact hI
     · simp only [h2, if_false]; exact hI
   · rw [if_neg h1]; exact hI
@@ -72,26 +74,27 @@ theorem Adv.cacheAccept_inv {lbs i len backward : Nat} {data : ByteArray}
 theorem Adv.bucketAccept_inv {lbs len backward : Nat} {data : ByteArray}
     {m cm curIx maxLength maxBackward : Nat} {s : LoopSt}
     (hI : Inv data m cm curIx maxLength maxBackward s)
-    (hco : ∀ score, Inv data m cm curIx maxLength maxBackward (s.take len backward score)) :
+    (hco : ∀ score, len ≠ 0 → Inv data m cm curIx maxLength maxBackward (s.take len backward score)) :
     Inv data m cm curIx maxLength maxBackward (Adv.bucketAccept lbs len backward s) := by
   unfold Adv.bucketAccept
   by_cases h1 : len ≠ 0
   · rw [if_pos h1]
     by_cases h2 : s.bestScore < scoreBackward lbs len backward
-    · simp only [h2, if_true]; exact hco _
+    · simp only [h2, if_true]; exact hco _ h1
     · simp only [h2, if_false]; exact hI
   · rw [if_neg h1]; exact hI
 
 theorem H9.cacheAccept_inv {lbs i len backward : Nat} {data : ByteArray}
     {m cm curIx maxLength maxBackward : Nat} {s : LoopSt}
     (hI : Inv data m cm curIx maxLength maxBackward s)
-    (hco : ∀ score, Inv data m cm curIx maxLength maxBackward (s.take len backward score)) :
+    (hco : ∀ score, (len ≥ 3 ∨ (len = 2 ∧ i < 2)) →
+      Inv data m cm curIx maxLength maxBackward (s.take len backward score)) :
     Inv data m cm curIx maxLength maxBackward (H9.cacheAccept lbs i len backward s) := by
   unfold H9.cacheAccept
   by_cases h1 : len ≥ 3 ∨ (len = 2 ∧ i < 2)
   · rw [if_pos h1]
     by_cases h2 : s.bestScore < scoreLastH9 lbs len i
-    · simp only [h2, if_true]; exact hco _
+    · simp only [h2, if_true]; exact hco _ h1
     · simp only [h2, if_false]; exact hI
   · rw [if_neg h1]; exact hI
 
@@ -107,9 +110,9 @@ theorem Adv.cacheStepAt_inv {lbs : Nat} {data : ByteArray} {mask curIx cm maxLen
     rcases tryAt_inv h with rfl | ⟨len, hf, rfl⟩
     · exact hI
     · obtain ⟨hlen, hag⟩ := findMatchLengthWithLimit_sound hf
-      exact Adv.cacheAccept_inv hI (fun score => hI.take_backward hc hb
+      exact Adv.cacheAccept_inv hI (fun score hcnd => hI.take_backward hc hb
         (Nat.lt_of_not_ge (fun hh => hcond (Or.inl hh)))
-        (Nat.le_of_not_gt (fun hh => hcond (Or.inr hh))) hlen hag score)
+        (Nat.le_of_not_gt (fun hh => hcond (Or.inr hh))) hlen (fun _ => by omega) hag score)
 
 theorem Adv.cacheStep_inv {lbs : Nat} {data : ByteArray} {mask curIx cm maxLength maxBackward : Nat}
     (hc : curIx < U64) {cache : List Int} (i : Nat) (s s' : LoopSt)
@@ -138,8 +141,8 @@ theorem H9.cacheStepAt_inv {lbs : Nat} {data : ByteArray} {mask curIx cm maxLeng
       rcases tryAt_inv h with rfl | ⟨len, hf, rfl⟩
       · exact hI
       · obtain ⟨hlen, hag⟩ := findMatchLengthWithLimit_sound hf
-        exact H9.cacheAccept_inv hI (fun score => hI.take_backward hc hb
-          (Nat.lt_of_not_ge hc1) (Nat.le_of_not_gt hc2) hlen hag score)
+        exact H9.cacheAccept_inv hI (fun score hcnd => hI.take_backward hc hb
+          (Nat.lt_of_not_ge hc1) (Nat.le_of_not_gt hc2) hlen (fun _ => by omega) hag score)
 
 theorem H9.cacheStep_inv {lbs : Nat} {data : ByteArray} {mask curIx cm maxLength maxBackward : Nat}
     (hc : curIx < U64) {cache : List Int} (i : Nat) (s s' : LoopSt)
@@ -178,7 +181,8 @@ theorem Adv.bucketStep_inv {lbs : Nat} {data : ByteArray} {mask curIx cm maxLeng
             simp only [hf, Option.some.injEq, Prod.mk.injEq] at h
             obtain ⟨_, rfl⟩ := h
             obtain ⟨hlen, hag⟩ := min4_sound hf
-            exact Adv.bucketAccept_inv hI (fun score => hI.take_prev h0 hmb hlen hag score)
+            exact Adv.bucketAccept_inv hI (fun score hne => hI.take_prev h0 hmb hlen
+              (fun h4 => by have := min4_ge4 hf hne h4; omega) hag score)
 
 theorem loopBody_inv {σ : Type} {r : Option (Bool × σ)} {k : σ → Option σ} {s' : σ}
     (h : loopBody r k = some s') :
@@ -214,7 +218,7 @@ theorem Adv.bucketLoop_inv {lbs : Nat} {data : ByteArray} {mask curIx cm maxLeng
 
 theorem H9.scanAccept_inv {lbs : Nat} {data : ByteArray} {mask cm curIx maxLength maxBackward len backward : Nat}
     {t t' : H9.ScanSt} {brk : Bool} (hI : Inv data mask cm curIx maxLength maxBackward t.s)
-    (hco : ∀ score, Inv data mask cm curIx maxLength maxBackward (t.s.take len backward score))
+    (hco : ∀ score, len ≥ 4 → Inv data mask cm curIx maxLength maxBackward (t.s.take len backward score))
     (h : H9.scanAccept lbs data mask cm len backward t = some (brk, t')) :
     Inv data mask cm curIx maxLength maxBackward t'.s := by
   unfold H9.scanAccept at h
@@ -224,13 +228,13 @@ theorem H9.scanAccept_inv {lbs : Nat} {data : ByteArray} {mask cm curIx maxLengt
     · simp only [h2, if_true] at h
       by_cases h3 : cm + len > mask
       · simp only [h3, if_true, Option.some.injEq, Prod.mk.injEq] at h
-        obtain ⟨_, rfl⟩ := h; exact hco _
+        obtain ⟨_, rfl⟩ := h; exact hco _ h1
       · simp only [h3, if_false] at h
         cases hb : byteAt data (cm + len) with
         | none => simp only [hb] at h; cases h
         | some v =>
           simp only [hb, Option.some.injEq, Prod.mk.injEq] at h
-          obtain ⟨_, rfl⟩ := h; exact hco _
+          obtain ⟨_, rfl⟩ := h; exact hco _ h1
     · simp only [h2, if_false, Option.some.injEq, Prod.mk.injEq] at h
       obtain ⟨_, rfl⟩ := h; exact hI
   · rw [if_neg h1] at h
@@ -265,7 +269,7 @@ theorem H9.scanStep_inv {lbs : Nat} {data : ByteArray} {mask curIx cm maxLength 
             | some len =>
               simp only [hf] at h
               obtain ⟨hlen, hag⟩ := findMatchLengthWithLimit_sound hf
-              exact H9.scanAccept_inv hI (fun score => hI.take_prev h0 hmb hlen hag score) h
+              exact H9.scanAccept_inv hI (fun score h4 => hI.take_prev h0 hmb hlen (fun _ => by omega) hag score) h
 
 theorem H9.bucketLoop_inv {lbs : Nat} {data : ByteArray} {mask curIx cm maxLength maxBackward : Nat}
     (bucket : Nat → Option Nat) : ∀ (cnt i : Nat) (t t' : H9.ScanSt),
@@ -289,7 +293,7 @@ theorem H9.bucketLoop_inv {lbs : Nat} {data : ByteArray} {mask curIx cm maxLengt
 
 theorem Basic.sweepAccept_inv {lbs : Nat} {data : ByteArray} {m cm curIx maxLength maxBackward len backward : Nat}
     {t t' : Basic.SweepSt} (hI : Inv data m cm curIx maxLength maxBackward t.s)
-    (hco : ∀ score, Inv data m cm curIx maxLength maxBackward (t.s.take len backward score))
+    (hco : ∀ score, len ≠ 0 → Inv data m cm curIx maxLength maxBackward (t.s.take len backward score))
     (h : Basic.sweepAccept lbs data cm len backward t = some t') :
     Inv data m cm curIx maxLength maxBackward t'.s := by
   unfold Basic.sweepAccept at h
@@ -299,7 +303,7 @@ theorem Basic.sweepAccept_inv {lbs : Nat} {data : ByteArray} {m cm curIx maxLeng
     · simp only [h2, if_true] at h
       cases hb : byteAt data (cm + len) with
       | none => simp only [hb] at h; cases h
-      | some v => simp only [hb, Option.some.injEq] at h; subst h; exact hco _
+      | some v => simp only [hb, Option.some.injEq] at h; subst h; exact hco _ h1
     · simp only [h2, if_false, Option.some.injEq] at h; subst h; exact hI
   · rw [if_neg h1] at h
     injection h with h; subst h; exact hI
@@ -325,8 +329,8 @@ theorem Basic.sweepStep_inv {lbs : Nat} {data : ByteArray} {mask curIx cm maxLen
         | some len =>
           simp only [hf] at h
           obtain ⟨hlen, hag⟩ := min4_sound hf
-          exact Basic.sweepAccept_inv hI (fun score => hI.take_prev (fun hh => hw (Or.inl hh))
-            (fun hh => hw (Or.inr hh)) hlen hag score) h
+          exact Basic.sweepAccept_inv hI (fun score hne => hI.take_prev (fun hh => hw (Or.inl hh))
+            (fun hh => hw (Or.inr hh)) hlen (fun h4 => by have := min4_ge4 hf hne h4; omega) hag score) h
 
 theorem Basic.sweepLoop_inv {lbs : Nat} {data : ByteArray} {mask curIx cm maxLength maxBackward : Nat}
     (b : Tab) (key : Nat) : ∀ (n j : Nat) (t t' : Basic.SweepSt),
